@@ -20,9 +20,12 @@ pub static STATIC_DATA: [u8; 4096] = {
     a
 };
 
+pub static STATIC_TEXT: &str = "static text for From<&'static str> 0123456789";
+
 pub fn in_static(ptr: usize, len: usize) -> bool {
     let s = STATIC_DATA.as_ptr() as usize;
-    ptr >= s && ptr + len <= s + STATIC_DATA.len()
+    let t = STATIC_TEXT.as_ptr() as usize;
+    (ptr >= s && ptr + len <= s + STATIC_DATA.len()) || (ptr >= t && ptr + len <= t + STATIC_TEXT.len())
 }
 
 /// Contents of buffer `id`: byte i = f(id, i), so a read identifies buffer and offset.
@@ -399,12 +402,22 @@ impl Driver {
             }
             match &s.val {
                 Val::B(b) => {
+                    let bor: &[u8] = std::borrow::Borrow::borrow(b);
+                    if bor != &s.model[..] || !b.into_iter().eq(s.model.iter()) {
+                        bad = Some(("borrow-view".into(), format!("B{} Borrow<[u8]> / &Bytes::into_iter disagree with model", s.id)));
+                        break;
+                    }
                     if b.remaining() != s.model.len() || b.chunk() != &s.model[..] || b.is_empty() != s.model.is_empty() {
                         bad = Some(("buf-view".into(), format!("B{} remaining/chunk disagree with model", s.id)));
                         break;
                     }
                 }
                 Val::M(m) => {
+                    let bor: &[u8] = std::borrow::Borrow::borrow(m);
+                    if bor != &s.model[..] || !m.into_iter().eq(s.model.iter()) || AsRef::<[u8]>::as_ref(m) != &s.model[..] {
+                        bad = Some(("borrow-view".into(), format!("M{} Borrow<[u8]> / AsRef / &BytesMut::into_iter disagree with model", s.id)));
+                        break;
+                    }
                     if m.remaining() != s.model.len() || m.chunk() != &s.model[..] || m.capacity() < m.len() {
                         bad = Some(("buf-view".into(), format!("M{} remaining/chunk/capacity disagree with model", s.id)));
                         break;
